@@ -43,10 +43,11 @@ ASSUMPTIONS = [
 ]
 REQUIRED_MONITORS = ["all_processes_succeed", "values_correct", "no_load_of_partial_library",
                      "final_name_published_only_by_rename",
-                     "load_after_crash_succeeds", "gates_matched"]
+                     "load_after_crash_succeeds", "gates_matched", "next_attempt_in_same_process_succeeds"]
 REQUIRED_BUCKETS = {
     "quick": ["schedule:2proc", "schedule:3proc", "kill:statement", "kill:cc_write1", "kill:cc_write2",
-              "kill:cc_done", "kill:after_source_removal", "killcc:cc_write1", "killcc:cc_write2", "killcc:cc_done", "hazard_window_open_during_other_lookup", "publish:rename_observed"],
+              "kill:cc_done", "kill:after_source_removal", "killcc:cc_write1", "killcc:cc_write2", "killcc:cc_done", "hazard_window_open_during_other_lookup", "publish:rename_observed",
+              "first-use-of-missing-cache-directory:2proc", "first-use-of-missing-cache-directory:8proc", "retry:same-process"],
 }
 REQUIRED_BUCKETS["thorough"] = REQUIRED_BUCKETS["quick"] + ["stress:4", "stress:8", "stress:16"]
 WATCHDOG_S = {"quick": 1800, "thorough": 4*3600}
@@ -190,6 +191,17 @@ def gen_cases(tier, seed):
         for sig in ("SIGKILL", "SIGTERM", "SIGSEGV"):
             cases.append({"id": "killcc/%s-%s" % (g, sig), "kind": "kill", "mode": "killcc:%s:%s" % (g, sig),
                           "event": ["compiler-only", g, sig], "group": "kc-%s-%s" % (g, sig)})
+    # first use of a cache directory that does not exist yet, by several processes released together just before
+    # the statement that creates it
+    for n in (2, 3, 8) + ((16,) if tier == "thorough" else ()):
+        for r in range(2 if tier == "quick" else 6):
+            cases.append({"id": "mkdir/%02d-%d" % (n, r), "kind": "mkdir", "nproc": n, "group": "mk-%d-%d" % (n, r), "cost": n/2})
+    # the compiler fails once (killed before / during / after writing its output, or exits 1) and the same
+    # python process tries again
+    for g in ("cc_write1", "cc_write2", "cc_done"):
+        for sig in ("SIGKILL", "SIGTERM", "EXIT1"):
+            cases.append({"id": "retry/%s-%s" % (g, sig), "kind": "retry", "mode": "killcconce:%s:%s" % (g, sig),
+                          "event": ["compiler-fails-once", g, sig], "group": "rt-%s-%s" % (g, sig)})
     if tier == "thorough":
         for n in (4, 8, 16):
             for r in range(12 if n < 16 else 6):
@@ -425,7 +437,79 @@ def run_stress(case, rec):
         shutil.rmtree(work, ignore_errors=True)
 
 
+def run_mkdir(case, rec):
+    ref = reference()
+    work = tempfile.mkdtemp(prefix="c18-", dir=os.environ.get("RTM_SCRATCH"))
+    cache, ctrl = os.path.join(work, "newcache", "sub"), os.path.join(work, "ctrl")
+    os.makedirs(ctrl)
+    try:
+        tags = ["M%02d" % k for k in range(case["nproc"])]
+        procs = {t: spawn(cache, ctrl, t, "mkdirgate", {"CC": "cc", "TMPDIR": work}) for t in tags}
+        t0 = time.monotonic()
+        while time.monotonic() - t0 < 90:
+            if all(os.path.exists(os.path.join(ctrl, t + ".mkdir.at")) or procs[t].poll() is not None for t in tags):
+                break
+            time.sleep(0.002)
+        held = [t for t in tags if os.path.exists(os.path.join(ctrl, t + ".mkdir.at"))]
+        existed = os.path.isdir(cache)
+        open(os.path.join(ctrl, "release"), "w").close()
+        results = {t: result_of(procs[t], timeout=120) for t in tags}
+        rec.seen("held_before_directory_creation", len(held))
+        if len(held) < 2 or existed:
+            rec.inconclusive("fewer than two participants were held before the cache directory was created (%d, existed=%s)"
+                             % (len(held), existed))
+        bad = {t: {k: r.get(k) for k in ("exit", "error", "stderr", "timeout")} for t, r in results.items() if not r.get("ok")}
+        rec.check("all_processes_succeed", not bad, {"nproc": case["nproc"], "held_at_mkdir": held, "failed": bad},
+                  key="C18/process-failed-under-concurrent-first-use")
+        for t, r in results.items():
+            if r.get("ok"):
+                rec.check("values_correct", r["Iq"] == ref, {"process": t, "got": r["Iq"], "ref": ref})
+        rec.bucket("first-use-of-missing-cache-directory:%dproc" % case["nproc"])
+        rec.set_shape(("mkdir", case["nproc"], case["id"]), nontrivial=len(held) >= 2)
+        rec.observe(nproc=case["nproc"], held=len(held))
+    finally:
+        for p in procs.values():
+            if p.poll() is None:
+                try:
+                    os.killpg(p.pid, signal.SIGKILL)
+                except OSError:
+                    pass
+        shutil.rmtree(work, ignore_errors=True)
+
+
+def run_retry(case, rec):
+    ref = reference()
+    work = tempfile.mkdtemp(prefix="c18-", dir=os.environ.get("RTM_SCRATCH"))
+    cache, ctrl = os.path.join(work, "cache"), os.path.join(work, "ctrl")
+    os.makedirs(ctrl)
+    try:
+        p = spawn(cache, ctrl, "R", "retry", {"TMPDIR": work, "RTM_C18_MODE": case["mode"]})
+        r = result_of(p, timeout=180)
+        failed_once = os.path.exists(os.path.join(ctrl, "R.once"))
+        rec.seen("compiler_failed_once", 1 if failed_once else 0)
+        if not failed_once:
+            rec.inconclusive("the scripted compiler never reached %s" % (case["event"],))
+        ok = bool(r.get("ok")) and r.get("Iq") == ref
+        rec.check("next_attempt_in_same_process_succeeds", ok,
+                  {"fault": case["event"], "first_attempt": r.get("first_attempt"),
+                   "second_attempt": {k: r.get(k) for k in ("ok", "exit", "error", "Iq", "stderr")}, "ref": ref})
+        for f in [x for x in (os.listdir(cache) if os.path.isdir(cache) else []) if FINAL_NAME.match(x)]:
+            chk = subprocess.run([core.PY, "-c", "import ctypes,sys; ctypes.CDLL(sys.argv[1])",
+                                  os.path.join(cache, f)], capture_output=True, text=True)
+            rec.check("final_names_are_loadable", chk.returncode == 0,
+                      {"file": f, "exit": chk.returncode, "stderr": chk.stderr[-300:], "fault": case["event"]})
+        rec.bucket("retry:same-process", "retry:" + case["event"][1])
+        rec.set_shape(("retry", case["mode"]), nontrivial=failed_once)
+        rec.observe(fault=case["event"], first_attempt=r.get("first_attempt"), second_ok=r.get("ok"))
+    finally:
+        shutil.rmtree(work, ignore_errors=True)
+
+
 def run_case(case, rec):
+    if case["kind"] == "mkdir":
+        return run_mkdir(case, rec)
+    if case["kind"] == "retry":
+        return run_retry(case, rec)
     if case["kind"] == "sched":
         run_sched(case, rec)
     elif case["kind"] == "kill":
